@@ -5,6 +5,7 @@ package main
 // (FieldError = [2]byte{0,100}, TranKeepAlive, ...).  io.EOF is a fixed non-nil error.
 
 import (
+	"fmt"
 	"go/ast"
 	"go/constant"
 	"go/types"
@@ -19,8 +20,9 @@ type define struct {
 }
 
 type globalInfo struct {
-	val Val
-	ok  bool
+	val     Val
+	ok      bool
+	content []byte // for []byte globals: the bytes of the backing array
 }
 
 var globalCache = map[*ssa.Global]*globalInfo{}
@@ -30,6 +32,9 @@ func (e *Engine) globalInit(x *Exec, g *ssa.Global) (Val, bool) {
 		return nil, false // handled by caller through eofVal
 	}
 	if gi, ok := globalCache[g]; ok {
+		if gi.ok && gi.content != nil {
+			x.globalContentFacts(gi.val[0].T, gi.content)
+		}
 		return gi.val, gi.ok
 	}
 	gi := &globalInfo{}
@@ -63,9 +68,18 @@ func (e *Engine) globalInit(x *Exec, g *ssa.Global) (Val, bool) {
 					if pp.TypesInfo.Defs[n] != obj || i >= len(vs.Values) {
 						continue
 					}
-					if v, ok := constLit(pp, vs.Values[i], g.Type().(*types.Pointer).Elem()); ok {
+					gt := g.Type().(*types.Pointer).Elem()
+					if v, ok := constLit(pp, vs.Values[i], gt); ok {
 						gi.val, gi.ok = v, true
 						return v, true
+					}
+					if bs, ok := byteSliceLit(pp, vs.Values[i], gt); ok {
+						// backing array: a dedicated object below the heap, contents fixed in the initial memory
+						ref := itoa(int64(maxGlobals - 1 - e.globalRef(g)))
+						n := itoa(int64(len(bs)))
+						gi.val, gi.ok, gi.content = Val{ic(ref), ic("0"), ic(n), ic(n)}, true, bs
+						x.globalContentFacts(ref, bs)
+						return gi.val, true
 					}
 				}
 			}
@@ -153,5 +167,47 @@ func (e *Engine) findWrittenGlobals() {
 				}
 			}
 		}
+	}
+}
+
+// byteSliceLit: []byte{c, ...} or []byte("...") initialisers
+func byteSliceLit(pp *packages.Package, e ast.Expr, t types.Type) ([]byte, bool) {
+	sl, ok := t.Underlying().(*types.Slice)
+	if !ok {
+		return nil, false
+	}
+	if b, ok := sl.Elem().Underlying().(*types.Basic); !ok || b.Kind() != types.Uint8 {
+		return nil, false
+	}
+	switch v := e.(type) {
+	case *ast.CompositeLit:
+		var out []byte
+		for _, el := range v.Elts {
+			tv := pp.TypesInfo.Types[el]
+			if tv.Value == nil {
+				return nil, false
+			}
+			k, _ := constant.Int64Val(tv.Value)
+			out = append(out, byte(k))
+		}
+		return out, true
+	case *ast.CallExpr:
+		if len(v.Args) == 1 {
+			if tv := pp.TypesInfo.Types[v.Args[0]]; tv.Value != nil && tv.Value.Kind() == constant.String {
+				return []byte(constant.StringVal(tv.Value)), true
+			}
+		}
+	}
+	return nil, false
+}
+
+func (x *Exec) globalContentFacts(ref string, bs []byte) {
+	key := "globalbytes:" + ref
+	if x.vc.S.decl[key] || x.vc.baseMem == "" {
+		return
+	}
+	x.vc.S.decl[key] = true
+	for i, b := range bs {
+		x.vc.S.raw(fmt.Sprintf("(assert (= (%s %s %d) %d))", x.vc.baseMem, ref, i, b))
 	}
 }
